@@ -88,6 +88,30 @@ fn c11_o1_singleton_add() {
 #[kani::stub(std::time::Instant::now, clock::now)]
 #[kani::unwind(21)]
 fn c11_o2_inductive_add_2() {
+    inductive_add_2();
+}
+
+//@ ob: C11.O2u
+//@ tier: quick
+//@ cap: 1500
+//@ standins: vcoll
+//@ desc: the same inductive step as C11.O2 with the BEP42 prefix function abstracted: id_prefix_ipv4 (CRC32C of the masked IP and r) is an uninterpreted function P(ip, r), so the step holds for every way of classifying nodes as secure that is a function of (ip, r) and the id's 21-bit prefix; C11.O1 and C19.O3 bind the real CRC
+//@ bounds: as C11.O2 (target and 3 nodes with 4 symbolic id bytes each, fully symbolic IPv4); P: at most 4 distinct (ip, r) arguments; unwind 21
+//@ inv: as C11.O2
+//@ stubs: id::id_prefix_ipv4 -> uninterpreted function P (ghost table, pre-drawn outputs); std::time::Instant::now -> symbolic whole-second clock
+//@ functions: ClosestNodes::add, Node::already_exists, Node::is_secure, Id::is_valid_for_ip (exempt ranges + 21-bit compare), Id::xor, slice::binary_search_by
+#[kani::proof]
+#[kani::stub(std::time::Instant::now, clock::now)]
+#[kani::stub(crate::common::id::id_prefix_ipv4, crate::verif_env::ufp::prefix)]
+#[kani::unwind(21)]
+fn c11_o2u_inductive_add_2_uf() {
+    let outs: [[u8; 3]; 4] = kani::any();
+    crate::verif_env::ufp::arm(outs);
+    inductive_add_2();
+    assert!(!crate::verif_env::cut_reached(), "CUT: more distinct (ip, r) pairs than P has slots");
+}
+
+fn inductive_add_2() {
     clock::set(0);
     let mut tb = [0u8; 20];
     tb[0] = kani::any();
@@ -210,6 +234,91 @@ fn c11_o4b_take_until_secure_small() {
     kani::cover!(subnets == 0);
     kani::cover!(subnets > 3);
     std::mem::forget(c);
+}
+
+/// i-th of 20 insecure nodes on distinct public IPs, ids [0, 0x10 + i, 0..]: increasing XOR
+/// distance to the all-zero target
+fn plain_node(i: u8) -> Node {
+    let mut a = [0u8; 20];
+    a[1] = 0x10 + i;
+    Node::new(Id::from(a), SocketAddrV4::new([11, 0, i, 1].into(), 6881))
+}
+
+//@ ob: C11.O2c
+//@ tier: quick
+//@ cap: 2400
+//@ standins: vcoll
+//@ also: C07
+//@ desc: inductive step at lookup size: one symbolic add into an accumulator already holding 20 nodes (insecure, distinct public IPs, ordered): the new node lands exactly where the order (secure first, then XOR distance) puts it -- a BEP42-secure newcomer goes to the front even when it is farther than every held node, an insecure one between its XOR neighbours -- the 20 old nodes keep their relative order, nothing is dropped
+//@ bounds: 20 concrete held nodes (ids [0,0x10+i,0..], IPs 11.0.i.1), target all-zero; newcomer id [b0,b1,b2,0..,r] (4 symbolic bytes: BEP42 prefix + r) and fully symbolic IPv4; unwind 23
+//@ inv: nodes pairwise in order and pairwise not already_exists
+//@ stubs: std::time::Instant::now -> symbolic whole-second clock
+//@ functions: ClosestNodes::add, Node::already_exists, Node::is_secure, Id::is_valid_for_ip, Id::xor, slice::binary_search_by, Vec::insert
+#[kani::proof]
+#[kani::stub(std::time::Instant::now, clock::now)]
+#[kani::unwind(23)]
+fn c11_o2c_add_into_twenty() {
+    clock::set(0);
+    let t = Id::from([0u8; 20]);
+    let mut held: Vec<Node> = Vec::with_capacity(21);
+    let mut i = 0u8;
+    while i < 20 {
+        held.push(plain_node(i));
+        i += 1;
+    }
+    let old = held.clone();
+    let x = any_node_4();
+    let sx = x.is_secure();
+    let refused = x.already_exists(&old);
+    let dx = x.id().xor(&t);
+    let mut c = ClosestNodes { target: t, nodes: held };
+    c.add(x.clone());
+    let ns = c.nodes();
+    let mut id_present = false;
+    let mut pos = 99usize;
+    let mut k = 0usize; // index into old
+    let mut i = 0usize;
+    while i < 21 {
+        if i < ns.len() {
+            if same(&ns[i], &x) {
+                pos = i;
+            } else {
+                assert!(k < 20 && same(&ns[i], &old[k]), "C11.O2 old nodes kept in order");
+                k += 1;
+            }
+        }
+        if i < 20 {
+            if old[i].id() == x.id() {
+                id_present = true;
+            }
+            assert!(!old[i].is_secure(), "CUT harness premise: the 20 held nodes are not BEP42-secure");
+        }
+        i += 1;
+    }
+    assert!(k == 20, "C11.O2 nothing is dropped from the accumulator");
+    if pos == 99 {
+        assert!(ns.len() == 20 && (refused || id_present), "C11.O2 a new acceptable node is inserted");
+    } else {
+        assert!(ns.len() == 21 && !refused, "C11.O2 per-IP rule respected");
+        // the held nodes are all insecure: a secure newcomer must be first; an insecure one sits
+        // between its XOR neighbours
+        if sx {
+            assert!(pos == 0, "C11.O2 accumulator stays ordered (secure first)");
+        } else {
+            if pos > 0 {
+                assert!(old[pos - 1].id().xor(&t) <= dx, "C11.O2 accumulator stays ordered");
+            }
+            if pos < 20 {
+                assert!(dx <= old[pos].id().xor(&t), "C11.O2 accumulator stays ordered");
+            }
+        }
+    }
+    kani::cover!(pos == 0 && sx && dx > old[19].id().xor(&t));
+    kani::cover!(pos == 20 && !sx);
+    kani::cover!(pos == 7 && !sx);
+    kani::cover!(pos == 99 && refused);
+    std::mem::forget(c);
+    std::mem::forget(old);
 }
 
 /// Direct construction for harnesses of other modules (caller guarantees the order invariant).
